@@ -4,7 +4,7 @@
 d="$1"; shift
 cd /verif || exit 2
 if ! git -C /repo diff --quiet; then echo "/repo has uncommitted changes; refusing"; exit 2; fi
-git -C /repo apply "$d/patch.diff" || { echo "patch does not apply"; exit 2; }
+git -C /repo apply "$(cd "$d" && pwd)/patch.diff" || { echo "patch does not apply"; exit 2; }
 for c in "$@"; do
   out=$(VERIF_SEED=${VERIF_SEED:-1} ./check "$c" ${TIER:-quick} 2>&1); rc=$?
   echo "== $c rc=$rc"
